@@ -14,6 +14,17 @@ import verif as V
 WRAPS = V.SIM_WRAPS + ['coap_malloc_type', 'coap_realloc_type', 'coap_free_type', 'coap_socket_read', 'coap_socket_write']
 
 
+def obs_loss(case, to):
+    """session loss as the end of observations (a clause of C11, judged on the session driver): one, two, three observations of the same
+    resource on a connection that then goes away; further changes of the resource afterwards"""
+    T = to * 1000
+    case(['T 0', 't 0 o', 't 0 q', 'N', 'I 50', 'D 0', 'I 100', 'N', 'I %d' % (2 * T)], to, tcp=1)
+    case(['T 0', 't 0 q', 't 0 o', 'D 0', 'I 10', 'N', 'N', 'I %d' % (2 * T), 'F'], to, tcp=1)
+    case(['T 0', 'T 1', 't 0 o', 't 1 o', 't 1 q', 't 0 q', 'N', 'D 1', 'I 10', 'N', 'I 50', 'D 0', 'I 10', 'N', 'I %d' % (2 * T)], to, tcp=1)
+    case(['T 0', 't 0 o', 't 0 q', 't 0 o', 'N', 'O 1', 'D 0', 'I 10', 'N', 'o 1', 'I %d' % (2 * T)], to, tcp=1)
+    case(['T 0', 't 0 o hold', 't 0 q', 'D 0', 'I 10', 'N', 'I %d' % T, 'U 56', 'I 10', 'I %d' % T], to, tcp=1)
+
+
 def gen(tier, rnd):
     cases = []
     cid = [0]
@@ -71,6 +82,7 @@ def gen(tier, rnd):
         case(['T 0', 't 0 a', 'I 50', 'D 0', 'I 100', 'I %d' % (2 * T), 'a 56', 'I 100', 'I %d' % T], to, tcp=1)      # parked request holds the closed session
         case(['T 0', 't 0 r hold', 'D 0', 'I %d' % (2 * T), 'S 56', 'I 100', 'U 56', 'I 100', 'I %d' % T], to, tcp=1)  # application reference holds it
         case(['T 0', 't 0 o', 'N', 'I 50', 'N', 'D 0', 'I 100', 'N', 'I %d' % (2 * T)], to, tcp=1)          # observer entry goes with the connection
+        obs_loss(case, to)
         case(['T 0', 'T 1', 'T 2', 't 0 r', 't 1 a', 't 2 o', 'R 1', 'O 2', 'A 3', 'D 1', 'D 2', 'I 100', 'N', 'a 57', 'a 3', 'I %d' % (2 * T), 'D 0', 'I 10'], to, tcp=1)
         case(['T 0', 't 0 b', 'I 50', 'D 0', 'I 100', 'I %d' % (2 * T)], to, tcp=1)                        # a pending block-wise response when the peer goes
         case(['T 0', 't 0 b hold', 'D 0', 'I 100', 'U 56', 'I %d' % T, 'F'], to, tcp=1)
@@ -90,7 +102,7 @@ def gen(tier, rnd):
                 ops.append('T %d' % k); conn.add(k)
             elif r < 0.40 and k in conn:
                 h = rnd.random() < 0.3 and (56 + k) not in heldp
-                ops.append('t %d %s%s' % (k, rnd.choice('rraob'), ' hold' if h else ''))
+                ops.append('t %d %s%s' % (k, rnd.choice('rraoqb'), ' hold' if h else ''))
                 if h:
                     heldp.add(56 + k)
             elif r < 0.52 and conn:
